@@ -11,6 +11,7 @@ from checks import _c17_other as OT
 from checks import _c17_order as OR
 from checks import _c17_global as GL
 from checks import _c17_life as LF
+from checks import _c17_ls as LS
 
 PROP = "C17"
 LEVEL = "model_checking"
@@ -100,6 +101,7 @@ FAMILIES = {
     "ord": (OR.cases_ord, OR.eval_ord, 4),
 }
 FAMILIES["f64"] = GL.make(FAMILIES) + (2,)
+FAMILIES["ls"] = LS.make(FAMILIES) + (3,)
 FAMILIES["life"] = (LF.cases_life, LF.eval_life, 1)
 FAMILIES["flags"] = (LF.cases_flags, LF.eval_flags, 4)
 
